@@ -29,6 +29,8 @@ for d in sorted(glob.glob(os.path.join(ROOT, "seeded", "*"))):
     note = ""
     if first is not None and set(first) != set(m.get("detected_by") or []):
         note = " (first run: %s)" % (", ".join(first) or "none")
+    if m.get("note"):
+        note += " — " + m["note"]
     rows.append(f"| {os.path.basename(d)} | {m['property']} | {', '.join(f.replace('pkg/yang/','') for f in files)} | {what} | {det}{note} | {'; '.join(sigs)[:110]} |")
 table = ["| change | breaks | touches | what it is / what it needs to manifest | caught by (quick tier) | first signature |", "|---|---|---|---|---|---|"] + rows
 text = (
